@@ -319,6 +319,10 @@ def direct_oracle(inp, obs):
     for cell, o in zip(inp["cells"], obs["cells"]):
         if o[0] == "leak" and not inp.get("hostile"):
             return "validated_value(%r) raised %s instead of a FieldValueError" % (cell, o[1])
+    for m in inp.get("must_accept", []):
+        got = obs["cells"][inp["cells"].index(m)]
+        if got != ["ok", ["str", m]]:
+            return "%s rule %r: the value %r was generated from the rule (ignoring case) and must be accepted but gave %r" % (inp["type"], inp["rule"], m, got)
     for text, want in inp.get("canonical", []):
         if text in inp["cells"]:
             got = obs["cells"][inp["cells"].index(text)]
@@ -560,6 +564,7 @@ def gen_datetime(tier, rnd):
 
 ALNUM = "abcxyzABCXYZ0189"
 LITS = "abcxyzABZ019 .-_/(+$^|\\{]"
+NON_ASCII_LITS = "äÄéÉяЯ"      # outside the model's domain; judged by the must-accept oracle only
 
 
 def rnd_crange(rnd):
@@ -575,7 +580,7 @@ def rnd_sre(rnd, depth):
     if depth <= 0 or k < 0.35:
         r = rnd.random()
         if r < 0.65:
-            return ["chr", ord(rnd.choice(LITS))]
+            return ["chr", ord(rnd.choice(LITS if rnd.random() < 0.9 else NON_ASCII_LITS))]
         if r < 0.8:
             return ["any"]
         return ["set", rnd.random() < 0.3, [rnd_crange(rnd) for _ in range(rnd.randint(1, 3))]]
@@ -586,25 +591,31 @@ def rnd_sre(rnd, depth):
     return [rnd.choice(["star", "plus", "opt"]), rnd_sre(rnd, depth - 1)]
 
 
-def sample_sre(rnd, t):
+def in_set(ranges, ch):
+    return any(lo <= ord(x) <= hi for x in {ch, ch.swapcase()} if len(x) == 1 for lo, hi in ranges)
+
+
+def sample_sre(rnd, t, dotall=False):
+    """a text in the language of the expression (letters possibly in the other case)"""
     k = t[0]
     if k == "chr":
         c = chr(t[1])
-        return c.swapcase() if rnd.random() < 0.3 else c
-    if k == "any":
-        return rnd.choice("aZ0 .-\n")
+        return c.swapcase() if rnd.random() < 0.3 and len(c.swapcase()) == 1 else c
+    if k in ("any", "one"):
+        return rnd.choice("aZ0 .-\n" if dotall else "aZ0 .-")
     if k == "set":
         if t[1]:
-            return rnd.choice("aZ0 .-q")
+            pool = [c for c in "aZ0 .-qQ5m" if not in_set(t[2], c)]
+            return rnd.choice(pool) if pool else "\x01"
         r = rnd.choice(t[2])
         c = chr(rnd.randint(r[0], r[1]))
         return c.swapcase() if rnd.random() < 0.3 else c
     if k == "seq":
-        return "".join(sample_sre(rnd, x) for x in t[1])
+        return "".join(sample_sre(rnd, x, dotall) for x in t[1])
     if k == "alt":
-        return sample_sre(rnd, rnd.choice([t[1], t[2]]))
+        return sample_sre(rnd, rnd.choice([t[1], t[2]]), dotall)
     n = {"star": rnd.randint(0, 3), "plus": rnd.randint(1, 3), "opt": rnd.randint(0, 1)}[k]
-    return "".join(sample_sre(rnd, t[1]) for _ in range(n))
+    return "".join(sample_sre(rnd, t[1], dotall) for _ in range(n))
 
 
 def gen_regex(tier, rnd):
@@ -612,17 +623,19 @@ def gen_regex(tier, rnd):
     for _ in range(n):
         t = rnd_sre(rnd, 3)
         rule = print_sre(t)
-        cells = []
+        cells, must = [], []
         for _i in range(8):
             c = sample_sre(rnd, t)
+            must += [c, c + "tail"]
             cells += [c, c + "tail", mutate(rnd, c, LITS + "\n"), c[:-1], c[1:]]
-        yield base("RegEx", rnd.choice(["delimited", "excel"]), "", rule, sorted(set(x for x in cells if x))[:24], ast=t)
+        cells = sorted(set(x for x in cells if x))[:24]
+        yield base("RegEx", rnd.choice(["delimited", "excel"]), "", rule, cells, ast=t, must_accept=[m for m in must if m in cells])
     for _ in range(n):
         g = []
         for _i in range(rnd.randint(1, 6)):
             r = rnd.random()
             if r < 0.5:
-                g.append(["chr", ord(rnd.choice("abcxyzABZ019 .-_/(+$^|\\{]!"))])
+                g.append(["chr", ord(rnd.choice("abcxyzABZ019 .-_/(+$^|\\{]!" if rnd.random() < 0.9 else NON_ASCII_LITS))])
             elif r < 0.65:
                 g.append(["one"])
             elif r < 0.85:
@@ -630,21 +643,23 @@ def gen_regex(tier, rnd):
             else:
                 g.append(["set", rnd.random() < 0.3, [rnd_crange(rnd) for _ in range(rnd.randint(1, 3))]])
         rule = print_glob(g)
-        cells = []
+        cells, must = [], []
         for _i in range(8):
             parts = []
             for t in g:
                 if t[0] == "chr":
                     parts.append(chr(t[1]).swapcase() if rnd.random() < 0.3 else chr(t[1]))
                 elif t[0] == "one":
-                    parts.append(rnd.choice("aZ0 .\n"))
+                    parts.append(sample_sre(rnd, t, dotall=True))
                 elif t[0] == "star":
                     parts.append("".join(rnd.choice("abZ01 .\n") for _j in range(rnd.randint(0, 3))))
                 else:
-                    parts.append(sample_sre(rnd, t))
+                    parts.append(sample_sre(rnd, t, dotall=True))
             c = "".join(parts)
+            must.append(c)
             cells += [c, c + "t", mutate(rnd, c, "abcxyzABZ019 .-\n"), c[:-1], c[1:]]
-        yield base("Pattern", rnd.choice(["delimited", "ods"]), "", rule, sorted(set(x for x in cells if x))[:24], ast=g)
+        cells = sorted(set(x for x in cells if x))[:24]
+        yield base("Pattern", rnd.choice(["delimited", "ods"]), "", rule, cells, ast=g, must_accept=[m for m in must if m in cells])
 
 
 def gen_inputs(tier, rnd):
